@@ -56,6 +56,8 @@ type Scenario struct {
 	ServeAfter int    `json:"serve_after,omitempty"`
 	Start2     bool   `json:"start2,omitempty"`
 	Early      bool   `json:"early_shutdown,omitempty"` // a Shutdown issued before the server is started
+	FailStart  string `json:"fail_start,omitempty"`     // a ListenAndServe that cannot succeed (bogus network / TLS without certificate) is attempted first
+	Spare      bool   `json:"spare_listener,omitempty"` // a udp server is also given a Listener it does not serve on
 	ShutKind   string `json:"shut_kind"`                // plain | ctx
 	ShutAfter  int    `json:"shut_after"`
 	CtxMs      int    `json:"ctx_ms,omitempty"`
@@ -98,7 +100,7 @@ func Gen(seed uint64, tier string) any {
 					op.H.SleepMs = core.Pick(r, 1, 50, 3000)
 				}
 				if core.Chance(r, 12) {
-					op.H.End = core.Pick(r, "close", "hijack")
+					op.H.End = core.Pick(r, "close", "hijack", "keep")
 				}
 			case x < 80:
 				op.Kind, op.N = "partial", r.IntN(20)
@@ -120,6 +122,10 @@ func Gen(seed uint64, tier string) any {
 	sc.ServeAfter = core.Pick(r, 0, 0, 0, r.IntN(10))
 	sc.Start2 = core.Chance(r, 20)
 	sc.Early = !sc.Start2 && core.Chance(r, 12)
+	if !sc.Start2 && !sc.Early && core.Chance(r, 12) {
+		sc.FailStart = core.Pick(r, "bogus", "tcp-tls")
+	}
+	sc.Spare = sc.Transport == "udp" && core.Chance(r, 15)
 	sc.ShutKind = core.Pick(r, "plain", "plain", "ctx")
 	sc.ShutAfter = r.IntN(10 + 40*total)
 	if sc.ShutKind == "ctx" {
@@ -187,6 +193,12 @@ func Shrink(x any) []any {
 	flag(func(n *Scenario) *bool { return &n.ShutB })
 	flag(func(n *Scenario) *bool { return &n.Shut3 })
 	flag(func(n *Scenario) *bool { return &n.Decorate })
+	flag(func(n *Scenario) *bool { return &n.Spare })
+	if sc.FailStart != "" {
+		n := cp()
+		n.FailStart = ""
+		out = append(out, n)
+	}
 	num := func(f func(n *Scenario) *int) {
 		if v := *f(sc); v != 0 {
 			n := cp()
@@ -342,6 +354,14 @@ func (x *run) ServeDNS(w dns.ResponseWriter, r *dns.Msg) {
 		k.Yield("h.hijacked", 0)
 		w.Close() // the connection is now the handler's to close
 		k.Bump("probe.handler_hijacked_connection")
+	case "keep":
+		// the handler takes the connection over and keeps it: from now on it is
+		// the application's, the server must leave it alone (also at Shutdown)
+		if x.sc.Transport == "tcp" {
+			w.Hijack()
+			x.n.Freeze(w.RemoteAddr().String())
+			k.Bump("probe.handler_kept_hijacked_connection")
+		}
 	}
 	k.Lock()
 	st.exited++
@@ -364,6 +384,23 @@ func (s *serveTask) RunEvent(time.Time) {
 	x, k := s.x, s.x.k
 	if s.after > 0 {
 		k.WaitSteps("life.wait", s.after, time.Millisecond)
+	}
+	if s.c.name == "start-1" && x.sc.FailStart != "" && !x.sc.Start2 && !x.sc.Early {
+		// a start that cannot succeed must leave the server stopped
+		x.srv.Net = x.sc.FailStart
+		err := x.srv.ListenAndServe()
+		x.srv.Net = ""
+		k.Lock()
+		x.res.Stats["oracle.S5_failed_start"]++
+		if err == nil {
+			x.res.Fail("S5", "impossible-start-succeeded", "ListenAndServe with Net=%q returned nil", x.sc.FailStart)
+		}
+		k.Unlock()
+		if serr := x.srv.Shutdown(); serr == nil || serr.Error() != "dns: server not started" {
+			k.Lock()
+			x.res.Fail("S5", "shutdown-after-failed-start", "after a ListenAndServe that failed (%v), Shutdown returned %v instead of reporting that the server is not started", err, serr)
+			k.Unlock()
+		}
 	}
 	k.Lock()
 	s.c.callSeq, s.c.callT = k.Seq, time.Now()
@@ -726,6 +763,10 @@ func runIn(sc *Scenario, res *core.Result, verbose bool) {
 	} else {
 		x.pc = n.ListenPacket()
 		srv.PacketConn = x.pc
+		if sc.Spare {
+			x.l = n.Listen()
+			srv.Listener = x.l
+		}
 	}
 	for ci, c := range sc.Clients {
 		for oi, op := range c.Ops {
@@ -964,13 +1005,22 @@ func (x *run) judge(outcome string) {
 			res.Fail("S7", "packetconn-open", "PacketConn still open after shutdown completed")
 		}
 		for _, c := range x.n.Conns {
-			if c.Role == "srv" && c.Accepted && !c.IsClosed() {
+			if c.Role == "srv" && c.Accepted && !c.Frozen && !c.IsClosed() {
 				res.Fail("S7", "conn-open", "accepted connection #%d still open after shutdown completed", c.ID)
 			}
 		}
 		for _, site := range []string{"srv.stream.", "listener.Accept", "pc.", "reader.", "h."} {
 			if n := k.ParkedAt(site); n > 0 {
 				res.Fail("S7", "task-parked", "%d server-side task(s) still parked at %s* after shutdown and serve returned: %v", n, site, k.Parked())
+			}
+		}
+	}
+	// S7: a connection the application took over is not the server's any more
+	for _, c := range x.n.Conns {
+		if c.Frozen {
+			res.Bump("oracle.S7_hijacked_left_alone")
+			if len(c.Touched) > 0 {
+				res.Fail("S7", "hijacked-connection-touched", "the server operated on connection #%d at a later instant than the one at which its handler had hijacked it and returned (%v): the connection is still the server's", c.ID, c.Touched)
 			}
 		}
 	}
